@@ -27,7 +27,23 @@ func mutate(r *simrt.Rand, j *Journal) string {
 		return is
 	}
 	pick := func(is []int) int { return is[r.Intn(len(is))] }
-	switch r.Intn(9) {
+	switch r.Intn(10) {
+	case 9: // a re-opened account that is closed again while it still holds something
+		for _, d := range j.Dirs {
+			if d.Kind == "txn" && d.Desc == "after reopening" && isAL(d.Bookings[0].Debit) && d.Bookings[0].Qty != 0 {
+				a := d.Bookings[0].Debit
+				// drop a later regular close of that account, if any, and close right after the booking
+				var ds []Dir
+				for _, x := range j.Dirs {
+					if (x.Kind == "close" && x.Account == a && x.Date > d.Date) || (x.Kind == "txn" && x.Desc == "emptied again" && x.Bookings[0].Credit == a) {
+						continue
+					}
+					ds = append(ds, x)
+				}
+				j.Dirs = append(ds, Dir{Kind: "close", Date: d.Date + Day(r.Range(0, 3)), Account: a})
+				return "close-reopened-with-position"
+			}
+		}
 	case 0: // drop an open
 		if is := find("open"); len(is) > 0 {
 			i := pick(is)
